@@ -31,7 +31,7 @@ func writeReplay(u *Universe, st *SpecTables, d *Discharger, id string, o *Oblig
 		sb.WriteString("---- replay on the real code ----\n" + rep + "\n")
 		confirmed = ok
 	} else if o.Kind == "g1" {
-		rep, ok := probeProblem(st, repo, "/"+o.Where+" "+o.Note)
+		rep, ok := probeProblem(st, repo, "/"+o.Where+" "+o.Note, id)
 		sb.WriteString("---- replay on the real code ----\n" + rep + "\n")
 		confirmed = ok
 	} else if o.Kind == "frame" && o.Decls != nil && o.Decls.Fn != nil && o.Decls.Fn.Pkg != nil {
@@ -96,10 +96,13 @@ func replayCmd(args []string) int {
 
 // probeProblem: a generation problem (construct outside the subset, unbound contract, ...) has no model; the generic
 // probes of the package it names are run to look for a failing input.
-func probeProblem(st *SpecTables, repo, problem string) (string, bool) {
+func probeProblem(st *SpecTables, repo, problem string, id string) (string, bool) {
 	var sb strings.Builder
 	hit := false
-	for alias, dir := range map[string]string{"v3m.": "v3/metric", "v2m.": "v2/metric", "rep.": "v3/report"} {
+	if id == "C16" {
+		return raceReplay(repo)
+	}
+	for alias, dir := range map[string]string{"v3m.": "v3/metric", "v2m.": "v2/metric", "rep.": "v3/report", "nam.": "v3/report"} {
 		if !strings.Contains(problem, alias) && !strings.Contains(problem, "/"+dir+"/") {
 			continue
 		}
